@@ -16,7 +16,7 @@ Dump4  == {15, 30, 45, 60}
 
 (* what the invariants and the actions can see of `delivered`: per current generation the concatenation, *)
 (* and whether some record is mislabelled; `hist` is seen by nothing                                      *)
-View == <<pid, gen, alive, wopen, rfd, phase, written, pipe, rstate, pipes, loop, fdOpen, eof, budget,
+View == <<pid, gen, alive, wopen, rfd, phase, written, pipe, rstate, pipes, loop, fdOpen, eof, budget, target,
           [w \in Workers |-> [ch \in Chans |-> IF pid[w] = 0 THEN <<>> ELSE DataOf(pid[w], ch)]],
           C17_Label>>
 
@@ -29,7 +29,8 @@ MCNext == Next \/ DumpAction
 
 (* simulation only: a uniformly random walk stops every redirector within a few steps and then starves;   *)
 (* let stops come late and seldom (early stops are covered by the exhaustive runs)                       *)
-SimBias == (\E r \in Reds : rstate[r] = "running" /\ rstate'[r] = "stopped") => (Len(hist) >= 24 /\ Len(hist) % 6 = 0)
+SimBias == /\ (\E r \in Reds : rstate[r] = "running" /\ rstate'[r] = "stopped") => (Len(hist) >= 24 /\ Len(hist) % 6 = 0)
+           /\ target' # target => Len(hist) % 5 = 2        \* stream changes: a few per behaviour, among the writes
 
 (* exhaustive search for the proposed finding: print the history of the first orphan and stop *)
 NoOrphanDump == NoOrphan \/ (PrintT(<<"CEX", ToJson(hist)>>) /\ FALSE)
